@@ -302,6 +302,10 @@ func inspectDump(b []byte) (entries, longNames int, err error) {
 	if err != nil {
 		return 0, 0, err
 	}
+	if gr.Name != "mosdns_cache_v2" {
+		// another dump format version: this observer only knows the v2 framing
+		return 0, 0, fmt.Errorf("dump format %q is not known to this reader", gr.Name)
+	}
 	for {
 		var h [8]byte
 		if _, err := io.ReadFull(gr, h[:]); err != nil {
@@ -310,7 +314,11 @@ func inspectDump(b []byte) (entries, longNames int, err error) {
 			}
 			return entries, longNames, err
 		}
-		blk := make([]byte, binary.BigEndian.Uint64(h[:]))
+		n := binary.BigEndian.Uint64(h[:])
+		if n > 64<<20 {
+			return entries, longNames, fmt.Errorf("implausible block length %d", n)
+		}
+		blk := make([]byte, n)
 		if _, err := io.ReadFull(gr, blk); err != nil {
 			return entries, longNames, err
 		}
